@@ -107,12 +107,16 @@ def lse_rows(st, a):
         e = Arr(a.shape, lambda i, j: real.exp(to_z3(a.at(i, j), "real")), "real", prov=("exp", a))
         st.ghost[("expof", a.uid)] = e
     rows = axis_total(st, e, 1)
-    return Arr((a.shape[0],), lambda i: real.log(rows.at(i)), "real", prov=("lse_rows", a, e))
+    out = Arr((a.shape[0],), lambda i: real.log(rows.at(i)), "real", prov=("lse_rows", a, e))
+    st.ghost["lse_terms"] = st.ghost.get("lse_terms", []) + [(out, a, 1)]
+    return out
 
 
 def lse(st, a):
     e = Arr(a.shape, lambda i: real.exp(to_z3(a.at(i), "real")), "real", prov=("exp", a))
-    return real.log(total(st, e))
+    out = real.log(total(st, e))
+    st.ghost["lse_terms"] = st.ghost.get("lse_terms", []) + [(out, a, None)]
+    return out
 
 
 def cong_rule(st, a, b, label):
